@@ -1,10 +1,181 @@
+import PdshVerif.Base.Hex
+import PdshVerif.Exec.Format
+import PdshVerif.Exec.Spec
+import PdshVerif.Opt.Rcmd
+import PdshVerif.Opt.RcmdSpec
+import PdshVerif.Gen.Modopt
 import Driver.Util
 
-/-! engine stub: filled in by the owner of this engine (see FRAMEWORK.md) -/
-namespace Driver.RcmdDrv
+/-!
+  engine `rcmd` (property C09)
 
-def main (_args : List String) : IO UInt32 := do
-  IO.eprintln "engine not implemented"
-  return 2
+  `pdshmodel rcmd model <variant>`   variant = unchanged | repaired | d10 | d11 (which repairs are on)
+     fmt  HOST USER RANK MEM             -> ok HEX | null | ub
+     args HOST USER RANK PATH TAIL ARG*  -> ok A0 A1 ... | ub
+     req  PORT|none LUSER RUSER CMD      -> HEX of the wire request
+     reg  loaded=L env=S|~ R=S|~ l=S|~ luser=S T=L W=TEXT/L/L ...   (S hex, L = hex+hex+..., W = word
+          text / first-level names / final names; RCMD_RANK_LIST comes from Gen)
+                                         -> fatal | ok TYPE|HOST|USER|RANK ...   (TYPE `~` = no module)
+  `pdshmodel rcmd spec`  the same lines answered by the specification
+-/
+namespace Driver.RcmdDrv
+open PdshVerif PdshVerif.Exec
+
+def hx (s : List Char) : String := Hex.encodeChars s
+
+def optHx : Option (List Char) → String
+  | none => "null"
+  | some s => hx s
+
+def variantOf : String → Option Variant
+  | "unchanged" => some unchanged
+  | "repaired" => some repaired
+  | "d10" => some ⟨true, false⟩
+  | "d11" => some ⟨false, true⟩
+  | _ => none
+
+def decodeAll : List String → Option (List (List Char))
+  | [] => some []
+  | s :: rest => do
+    let a ← Hex.decodeToChars s
+    let r ← decodeAll rest
+    pure (a :: r)
+
+/-! registry lines -/
+open PdshVerif.Opt.Rcmd in
+def parseList (s : String) : Option (List Str) :=
+  if s = "" then some [] else decodeAll (s.splitOn "+")
+
+def parseOpt (s : String) : Option (Option (List Char)) :=
+  if s = "~" then some none else (Hex.decodeToChars s).map some
+
+structure RegCase where
+  cfg : Opt.Rcmd.Cfg
+  words : List Opt.Rcmd.Word
+  targets : List (List Char)
+
+def parseWord (s : String) : Option Opt.Rcmd.Word :=
+  match s.splitOn "/" with
+  | [t, a, b] => do
+    let t ← Hex.decodeToChars t
+    let a ← parseList a
+    let b ← parseList b
+    pure ⟨t, a, b⟩
+  | _ => none
+
+def parseReg : List String → RegCase → Option RegCase
+  | [], c => some c
+  | tok :: rest, c =>
+    match tok.splitOn "=" with
+    | [k, v] =>
+      let c' : Option RegCase :=
+        if k = "loaded" then (parseList v).map fun l => { c with cfg := { c.cfg with loaded := l } }
+        else if k = "env" then (parseOpt v).map fun o => { c with cfg := { c.cfg with envType := o } }
+        else if k = "R" then (parseOpt v).map fun o => { c with cfg := { c.cfg with optR := o } }
+        else if k = "l" then (parseOpt v).map fun o => { c with cfg := { c.cfg with optL := o } }
+        else if k = "luser" then (Hex.decodeToChars v).map fun u => { c with cfg := { c.cfg with luser := u } }
+        else if k = "T" then (parseList v).map fun l => { c with targets := l }
+        else if k = "W" then (parseWord v).map fun w => { c with words := c.words ++ [w] }
+        else none
+      match c' with
+      | some c' => parseReg rest c'
+      | none => none
+    | _ => none
+
+def emptyCase : RegCase :=
+  ⟨⟨[], Gen.MO_RCMD_RANK_LIST.map String.toList, none, none, none, []⟩, [], []⟩
+
+def showLines (ls : List Opt.Rcmd.Line) : String :=
+  "ok" ++ String.join (ls.map fun l =>
+    " " ++ (match l.rtype with | some t => hx t | none => "~") ++ "|" ++ hx l.host ++ "|" ++ hx l.user ++
+    "|" ++ toString l.rank)
+
+def regModel (toks : List String) : String :=
+  match parseReg toks emptyCase with
+  | none => "bad-op"
+  | some c =>
+    match Opt.Rcmd.run c.cfg c.words c.targets with
+    | .fatal => "fatal"
+    | .lines ls => showLines ls
+
+/-- the specification says nothing about malformed words or unknown module names (the property is
+    about runs that take place): `nodomain` -/
+def regSpec (toks : List String) : String :=
+  match parseReg toks emptyCase with
+  | none => "bad-op"
+  | some c =>
+    let wordsOk := c.words.all fun w =>
+      match Opt.Rcmd.Spec.parse w.text with
+      | some p => (match p.rtype with | some t => c.cfg.loaded.contains t | none => true)
+      | none => false
+    let dfl := Opt.Rcmd.Spec.defaultType c.cfg
+    let ls := Opt.Rcmd.Spec.expectedLines c.cfg c.words c.targets
+    if !wordsOk then "nodomain"
+    else if (match dfl with | some d => !c.cfg.loaded.contains d | none => false) then "nodomain"
+    else if ls.any (·.rtype.isNone) then "nodomain"
+    else showLines ls
+
+def stepModel (v : Variant) (line : String) : String :=
+  match Driver.words line with
+  | ["fmt", h, u, r, m] =>
+    match Hex.decodeToChars h, Hex.decodeToChars u, r.toNat?, Hex.decodeToChars m with
+    | some h, some u, some r, some m =>
+      match formatArg v ⟨h, u, r⟩ m with
+      | .ok none => "null"
+      | .ok (some s) => "ok " ++ hx s
+      | .ub => "ub"
+    | _, _, _, _ => "bad-op"
+  | "args" :: h :: u :: r :: p :: t :: rest =>
+    match Hex.decodeToChars h, Hex.decodeToChars u, r.toNat?, Hex.decodeToChars p, Hex.decodeToChars t,
+          decodeAll rest with
+    | some h, some u, some r, some p, some t, some argv =>
+      match cmdArgs v ⟨h, u, r⟩ p argv t with
+      | some l => "ok " ++ " ".intercalate (l.map optHx)
+      | none => "ub"
+    | _, _, _, _, _, _ => "bad-op"
+  | ["req", port, l, r, c] =>
+    match Hex.decodeToChars l, Hex.decodeToChars r, Hex.decodeToChars c with
+    | some l, some r, some c =>
+      let p : Option (Option Nat) := if port = "none" then some none else port.toNat?.map some
+      match p with
+      | some p => hx (rshRequest p l r c)
+      | none => "bad-op"
+    | _, _, _ => "bad-op"
+  | "reg" :: rest => regModel rest
+  | _ => "bad-op"
+
+def stepSpec (line : String) : String :=
+  match Driver.words line with
+  | ["fmt", h, u, r, m] =>
+    match Hex.decodeToChars h, Hex.decodeToChars u, r.toNat?, Hex.decodeToChars m with
+    | some h, some u, some r, some m =>
+      -- the argument is the C string at the start of MEM
+      if m.contains nul then "ok " ++ hx (Spec.expected ⟨h, u, r⟩ (m.takeWhile (· ≠ nul)))
+      else "nodomain"
+    | _, _, _, _ => "bad-op"
+  | "args" :: h :: u :: r :: p :: _ :: rest =>
+    match Hex.decodeToChars h, Hex.decodeToChars u, r.toNat?, Hex.decodeToChars p, decodeAll rest with
+    | some h, some u, some r, some p, some argv =>
+      "ok " ++ " ".intercalate ((Spec.expectedArgv ⟨h, u, r⟩ p argv).map hx)
+    | _, _, _, _, _ => "bad-op"
+  | ["parse", bs] =>
+    match Hex.decodeToChars bs with
+    | some bs =>
+      match Spec.parseRequest bs with
+      | some (p, l, r, c) => s!"ok {hx p} {hx l} {hx r} {hx c}"
+      | none => "malformed"
+    | none => "bad-op"
+  | "reg" :: rest => regSpec rest
+  | _ => "bad-op"
+
+def main (args : List String) : IO UInt32 := do
+  let stdin ← IO.getStdin
+  match args with
+  | ["model", v] =>
+    match variantOf v with
+    | some v => Driver.forLines stdin () (fun _ l => ((), stepModel v l)); return 0
+    | none => IO.eprintln "variant: unchanged|repaired|d10|d11"; return 2
+  | ["spec"] => Driver.forLines stdin () (fun _ l => ((), stepSpec l)); return 0
+  | _ => IO.eprintln "usage: pdshmodel rcmd model <variant> | spec"; return 2
 
 end Driver.RcmdDrv
